@@ -220,4 +220,15 @@ PROPS['C14'] = {
     'level_note': 'Trusted: Coq kernel, classtab extractor (validated). Known finding: Equalize(mask, mask_params).',
 }
 
+PROPS['C12'] = {
+    'requires': [], 'corr': corr_classtab(), 'search': 'C12',
+    'trusted_base': CLASSTAB_TRUSTED + ['coq/model/Dispatch.v is a hand-written model of _get_target_function / '
+                                        'apply_with_params; the search runs every image-only class with every other target'],
+    'assumptions': ['RescaleSlopeIntercept rewrites two header fields by design (C16)'],
+    'level_text': 'The target table of every image-only class ({image}) is a theorem over the class table regenerated '
+                  'from the source; "keys outside the table pass through unchanged" and "the result has the keys it was '
+                  'given" are theorems on the dispatch model; shape / channel preservation and dropout behaviour are explored.',
+    'level_note': 'Trusted: Coq kernel, classtab extractor (validated), hand-written dispatch model.',
+}
+
 NOT_CLAIMED = {}
